@@ -44,6 +44,13 @@ def scenarios(tier):
             dict(writer="atomic", dest="z.txt", old=old),
             dict(writer="atomic", dest="z.txt", old=old, fail=True),
         ]
+        if old:
+            # configuration dimension: a destination without the owner-write bit (replace must still be one step)
+            sc += [
+                dict(writer="aln", dest="x.fasta", old=True, ro=True),
+                dict(writer="table", dest="t.tsv", old=True, ro=True),
+                dict(writer="atomic", dest="z.txt", old=True, ro=True),
+            ]
         if tier == "thorough" or old:
             sc += [
                 dict(writer="aln", dest="x.phylip", old=old, array=True),
@@ -67,7 +74,7 @@ def scenarios(tier):
 
 def sc_name(sc):
     return f"{sc['writer']}:{sc['dest']}:{'old' if sc['old'] else 'absent'}:{'fail' if sc.get('fail') else 'ok'}" + \
-        (":new_type" if sc.get("new_type") else "") + (":array" if sc.get("array") else "")
+        (":new_type" if sc.get("new_type") else "") + (":array" if sc.get("array") else "") + (":ro" if sc.get("ro") else "")
 
 
 def run_child(sc, mode, k=-1):
@@ -78,6 +85,8 @@ def run_child(sc, mode, k=-1):
         if sc["old"]:
             with open(dest, "wb") as f:
                 f.write(OLD)
+            if sc.get("ro"):
+                os.chmod(dest, 0o444)
         try:
             r = subprocess.run([core.PY, CHILD, json.dumps(dict(sandbox=sb, scenario=sc, mode=mode, k=k))],
                                capture_output=True, text=True, env=core.impl_env(), timeout=180)
@@ -191,10 +200,10 @@ def model_cases_a(scs, traces, jobs):
 
 # ------------------------------------------------------------------ part B (resume)
 
-def make_inputs(d, n):
+def make_inputs(d, n, idfn=False):
     os.makedirs(d)
     for i in range(n):
-        with open(os.path.join(d, f"s{i:02d}.fasta"), "w") as f:
+        with open(os.path.join(d, f"s{i:02d}{'_raw' if idfn else ''}.fasta"), "w") as f:
             f.write(f">a\nACGT{'A' * i}\n>b\nGGCC{'T' * i}\n")
 
 
@@ -211,17 +220,23 @@ def snapshot_store(path):
     return snap
 
 
-def run_resume_case(n, k, bad, pre):
+def run_resume_case(n, k, bad, pre, idfn=False):
     """returns dict(processed_resume, final, uninterrupted)"""
     base = tempfile.mkdtemp(prefix="c19r_")
     try:
         ind = os.path.join(base, "in")
-        make_inputs(ind, n)
+        make_inputs(ind, n, idfn)
+
+        errs = []
 
         def call(outdir, kill_at, log):
-            cfg = dict(indir=ind, outdir=outdir, kill_at=kill_at, log=log, bad=bad)
+            cfg = dict(indir=ind, outdir=outdir, kill_at=kill_at, log=log, bad=bad, idfn=idfn)
             r = subprocess.run([core.PY, RCHILD, json.dumps(cfg)], capture_output=True, text=True, env=core.impl_env(), timeout=300)
             if r.returncode not in (0, 77):
+                if log.endswith("out2.log"):
+                    # the RESUMED run raised: an observation about the code, not a machinery failure
+                    errs.append(r.stderr[-1200:])
+                    return r.returncode
                 raise core.CheckError(f"c19_resume_child failed rc={r.returncode}: {r.stderr[-1500:]}")
             return r.returncode
 
@@ -244,7 +259,7 @@ def run_resume_case(n, k, bad, pre):
         if pre:
             order = [int(x[1:3]) for x in open(os.path.join(base, "ref0.log")).read().split()] + order
         return dict(killed=(rc == 77), after_kill=sorted(after_kill), processed_resume=processed, order=order,
-                    final=snapshot_store(out), uninterrupted=snapshot_store(ref))
+                    final=snapshot_store(out), uninterrupted=snapshot_store(ref), resume_error=(errs[0] if errs else None))
     finally:
         shutil.rmtree(base, ignore_errors=True)
 
@@ -348,10 +363,13 @@ def run(tier: str, seed: int) -> int:
             rjobs.append((n, k, [], []))
         rjobs.append((n, rng.randrange(1, n), ["s01"], []))        # a failing record (NotCompleted) in the set
         rjobs.append((n, rng.randrange(0, n - 1), [], ["s00"]))     # store already holds an earlier record
+        for k in sorted({0, 1, n // 2, n}):                          # user supplied id_from_source (input name != record id)
+            rjobs.append((n, k, [], [], True))
     with cf.ThreadPoolExecutor(max_workers=min(core.NPROC, 8)) as ex:
         rres = list(ex.map(lambda j: run_resume_case(*j), rjobs))
     rcases = []
-    for (n, k, bad, pre), r in zip(rjobs, rres):
+    rjobs = [j if len(j) == 5 else (*j, False) for j in rjobs]
+    for (n, k, bad, pre, idfn), r in zip(rjobs, rres):
         # inputs in the order the store lists them (= processing order of the uninterrupted run)
         order = r["order"] if len(r["order"]) == n else list(range(n))
         rcases.append(f"({zlist(order)}, {zlist(order[:len(pre)])}, {zlit(k)})")
@@ -361,21 +379,26 @@ def run(tier: str, seed: int) -> int:
     except core.CheckError as e:
         if not pr["problems"]:
             raise
-    for j, ((n, k, bad, pre), r) in enumerate(zip(rjobs, rres)):
+    for j, ((n, k, bad, pre, idfn), r) in enumerate(zip(rjobs, rres)):
         n_eval += 1
-        nontrivial.add(("resume", n, k, tuple(bad), tuple(pre)))
+        nontrivial.add(("resume", n, k, tuple(bad), tuple(pre), idfn))
         ids = lambda snap: sorted(int(p[1:3]) for p in snap if "/" not in p and p.endswith(".fasta"))  # noqa: E731
+        if r.get("resume_error"):
+            rep.violation(f"resume:raised:{'bad' if bad else 'ok'}:{'pre' if pre else 'fresh'}" + (":idfn" if idfn else ""),
+                          dict(n_inputs=n, kill_after=k, bad=bad, pre=pre, idfn=idfn, expected_by_spec="the resumed run completes",
+                               observed_impl=r["resume_error"], broken="re-running apply_to on the interrupted store raised"))
+            continue
         if r["final"] != r["uninterrupted"]:
             diff = sorted(set(r["final"].items()) ^ set(r["uninterrupted"].items()))[:4]
-            rep.violation(f"resume:store-differs:{'bad' if bad else 'ok'}:{'pre' if pre else 'fresh'}",
-                          dict(n_inputs=n, kill_after=k, bad=bad, pre=pre, expected_by_spec="store of the uninterrupted run",
+            rep.violation(f"resume:store-differs:{'bad' if bad else 'ok'}:{'pre' if pre else 'fresh'}" + (":idfn" if idfn else ""),
+                          dict(n_inputs=n, kill_after=k, bad=bad, pre=pre, idfn=idfn, expected_by_spec="store of the uninterrupted run",
                                observed_impl=dict(diff=diff, final=sorted(r["final"]), uninterrupted=sorted(r["uninterrupted"])),
                                broken="resumed store differs from the uninterrupted run"))
             continue
         done_before = set(p for p in r["after_kill"] if "/" not in p)
         expected_proc = sorted(f"s{i:02d}.fasta" for i in range(n) if f"s{i:02d}.fasta" not in done_before)
         if sorted(r["processed_resume"]) != expected_proc:
-            rep.violation(f"resume:processed:{'bad' if bad else 'ok'}", dict(n_inputs=n, kill_after=k, bad=bad, pre=pre,
+            rep.violation(f"resume:processed:{'bad' if bad else 'ok'}" + (":idfn" if idfn else ""), dict(n_inputs=n, kill_after=k, bad=bad, pre=pre, idfn=idfn,
                           expected_by_spec=expected_proc, observed_impl=sorted(r["processed_resume"]),
                           broken="resume did not process exactly the missing inputs"))
         elif rmodel is not None and not bad:
@@ -421,7 +444,7 @@ def replay(path: str) -> int:
         print("REPRODUCED" if bad else "not reproduced")
         return 1 if bad else 0
     if "n_inputs" in d:
-        r = run_resume_case(d["n_inputs"], d["kill_after"], d.get("bad", []), d.get("pre", []))
+        r = run_resume_case(d["n_inputs"], d["kill_after"], d.get("bad", []), d.get("pre", []), d.get("idfn", False))
         bad = r["final"] != r["uninterrupted"]
         print("final == uninterrupted:", not bad, "processed on resume:", r["processed_resume"])
         print("REPRODUCED" if bad else "not reproduced")
